@@ -314,6 +314,7 @@ fn build(seed: u64, i: usize) -> Built {
     }
     // an unresolvable include
     let mut bad = None;
+    let mut twin_bad: Option<(usize, usize, String)> = None;
     if r.chance(1, 4) {
         let k = r.usize(n);
         let mut s = r.pick(&["nonexistent.circom", "./missing/x.circom", "../nowhere.circom", "lib/ghost.circom"]).to_string();
@@ -334,6 +335,16 @@ fn build(seed: u64, i: usize) -> Built {
             }
         }
         nodes[k].bad_includes.push(s.clone());
+        // the same unresolvable spelling in a second file (below: at the same byte offset,
+        // as under a shared licence header): each statement gets its own error
+        if n >= 2 && r.chance(1, 3) {
+            let k2 = (k + 1 + r.usize(n - 1)) % n;
+            if !odd_ext.contains(&k2) && !odd_ext.contains(&k) {
+                nodes[k2].bad_includes.push(s.clone());
+                twin_bad = Some((k, k2, s.clone()));
+                shapes.push("unresolvable-include:same-spelling-in-two-files");
+            }
+        }
         bad = Some((k, s));
         shapes.push("unresolvable-include");
     }
@@ -362,6 +373,29 @@ fn build(seed: u64, i: usize) -> Built {
         world.files.insert(p, b);
     }
     world.dirs.push("sub".into());
+    // align the two statements of the twin on one byte offset: blanks at the end of line 1
+    if let Some((ka, kb, sp)) = &twin_bad {
+        let off = |w: &World, k: usize| -> Option<usize> {
+            let t = w.get_text(&nodes[k].path())?;
+            let pos = t.find(&format!("\"{sp}\""))?;
+            t[..pos].rfind("include")
+        };
+        if let (Some(oa), Some(ob)) = (off(&world, *ka), off(&world, *kb)) {
+            let (short, pad) = if oa < ob { (*ka, ob - oa) } else { (*kb, oa - ob) };
+            if pad > 0 {
+                let path = nodes[short].path();
+                let t = world.get_text(&path).unwrap_or("").to_string();
+                if let Some(eol) = t.find('\n') {
+                    let at = if eol > 0 && t.as_bytes()[eol - 1] == b'\r' { eol - 1 } else { eol };
+                    let inc = t.find("include").unwrap_or(0);
+                    if at < inc {
+                        let padded = format!("{}{}{}", &t[..at], " ".repeat(pad), &t[at..]);
+                        world.put(&path, &padded);
+                    }
+                }
+            }
+        }
+    }
     // named inputs
     let mut argv_inputs: Vec<String> = Vec::new();
     let mode = r.usize(10);
@@ -373,6 +407,13 @@ fn build(seed: u64, i: usize) -> Built {
         for k in 1..n {
             if r.chance(1, 4) && !odd_ext.contains(&k) {
                 argv_inputs.push(nodes[k].path());
+            }
+        }
+        if let Some((ka, kb, _)) = &twin_bad {
+            for k in [*ka, *kb] {
+                if !argv_inputs.contains(&nodes[k].path()) {
+                    argv_inputs.push(nodes[k].path());
+                }
             }
         }
         if mode == 1 {
@@ -507,6 +548,7 @@ struct Res {
     fp: u64,
     sim_ns: i64,
     faults_fired: usize,
+    syntactic_damage_judged: usize,
 }
 
 fn consumption_counts(o: &Outcome, root: &Path) -> (BTreeMap<PathBuf, usize>, Vec<String>) {
@@ -689,6 +731,7 @@ fn one(runner: &Runner, seed: u64, i: usize) -> Res {
         fp: hash_str(&serde_json::to_string(&b.case).unwrap_or_default()),
         sim_ns: 0,
         faults_fired: 0,
+        syntactic_damage_judged: 0,
     };
     let o = match runner.run(&b.case) {
         Ok(o) => o,
@@ -716,9 +759,28 @@ fn one(runner: &Runner, seed: u64, i: usize) -> Res {
         let mut c = b.case.clone();
         c.plan.set_hashkey(r2.bytes16());
         let mut damaged: Option<String> = None;
+        let mut syntactic = false;
         if b.nodes.len() > 1 && r2.chance(1, 2) {
             let k = 1 + r2.usize(b.nodes.len() - 1);
-            match r2.usize(5) {
+            match r2.usize(7) {
+                5 => {
+                    // the file ends inside a definition
+                    let t = c.world.get_text(&b.nodes[k].path()).unwrap_or("").to_string();
+                    if let Some(open) = t.find('{') {
+                        let mut cut = open + 1 + r2.usize((t.len() - open).max(1));
+                        while cut < t.len() && !t.is_char_boundary(cut) {
+                            cut += 1;
+                        }
+                        c.world.put(&b.nodes[k].path(), &t[..cut.min(t.len())]);
+                    }
+                    syntactic = true;
+                }
+                6 => {
+                    let mut t = c.world.get_text(&b.nodes[k].path()).unwrap_or("").to_string();
+                    t.push_str(*r2.pick(&["\n/* never closed", "/*", "\n/* a *", "\n/**"]));
+                    c.world.put(&b.nodes[k].path(), &t);
+                    syntactic = true;
+                }
                 0 => c.plan.faults.push(Fault { call: "open".into(), errno: libc::EACCES, occurrence: 0, suffix: b.nodes[k].path() }),
                 1 => c.plan.faults.push(Fault { call: "read".into(), errno: libc::EIO, occurrence: 0, suffix: b.nodes[k].path() }),
                 2 => c.plan.faults.push(Fault { call: "open".into(), errno: libc::ENOENT, occurrence: 0, suffix: b.nodes[k].path() }),
@@ -730,6 +792,7 @@ fn one(runner: &Runner, seed: u64, i: usize) -> Res {
                     let mut t = c.world.get_text(&b.nodes[k].path()).unwrap_or("").to_string();
                     t.push_str("\n@ } broken\n");
                     c.world.put(&b.nodes[k].path(), &t);
+                    syntactic = true;
                 }
             }
             damaged = Some(b.nodes[k].path());
@@ -755,6 +818,27 @@ fn one(runner: &Runner, seed: u64, i: usize) -> Res {
                         let cpath = std::fs::canonicalize(&p).unwrap_or_else(|_| PathBuf::from(&p));
                         *attempts.entry(cpath).or_default() += 1;
                     }
+                }
+                // a readable included-only file that does not parse: whatever the tool makes of
+                // it is located in that file and stays out of sight; nothing without a location
+                // may appear that the undamaged run does not show
+                let named_here = damaged.as_ref().map(|d| b.argv_inputs.iter().any(|a| a == d || a == ".")).unwrap_or(true);
+                if syntactic && !named_here {
+                    let base_free: Vec<String> = parse_stdout(&o.stdout).diags.iter().filter(|d| d.locs.is_empty()).map(|d| d.message.clone()).collect();
+                    let mut left = base_free.clone();
+                    for d in parse_stdout(&o2.stdout).diags.iter().filter(|d| d.locs.is_empty()) {
+                        if let Some(pos) = left.iter().position(|m| *m == d.message) {
+                            left.remove(pos);
+                        } else {
+                            res.violation = Some((
+                                "finding-of-included-only-file:without-location".into(),
+                                format!("`{}` is only included and does not parse; displayed without any location: {}: {}", damaged.clone().unwrap_or_default(), d.severity, d.message),
+                                json!({"kind": "C19", "seed": seed, "index": i, "case": c, "damaged": damaged}),
+                            ));
+                            return res;
+                        }
+                    }
+                    res.syntactic_damage_judged += 1;
                 }
                 if let Some((p, n)) = attempts.iter().find(|(_, n)| **n > 1) {
                     let rel = p.strip_prefix(&runner.root).unwrap_or(p).display().to_string();
@@ -854,9 +938,10 @@ pub fn run(env: &Env) -> i32 {
     {
         let all = ["cycle", "self-include", "diamond", "double-spelling", "symlinked-file", "symlinked-dir", "library-dir", "second-library-dir", "library-file", "via-library-dir", "via-library-file",
                    "library-file-shadowed-by-local-file", "same-name-in-two-directories", "local-candidate-fails-with-other-errno", "unresolvable-include", "unsupported-pragma-in-the-graph", "directory-input",
-                   "included-file-with-another-extension", "unresolvable-include:directory-before-library-file-name", "unresolvable-include:dot-spelling-of-library-name"];
+                   "included-file-with-another-extension", "unresolvable-include:directory-before-library-file-name", "unresolvable-include:dot-spelling-of-library-name", "unresolvable-include:same-spelling-in-two-files"];
         let mut probes: Vec<(&str, usize)> = all.iter().map(|k| (*k, shapes.get(k).copied().unwrap_or(0))).collect();
         probes.push(("damaged or unreadable include", results.iter().map(|r| r.faults_fired).sum::<usize>()));
+        probes.push(("included-only file that does not parse, judged", results.iter().map(|r| r.syntactic_damage_judged).sum::<usize>()));
         probes.push(("include-vs-inline twin judged", results.iter().filter(|r| r.twin_checked).count()));
         crate::report::add_probes(&mut cov, &probes);
         cov.insert("fault_kinds_fired".into(), json!({"hash-key": runs, "dir-order": shapes.get("directory-input").copied().unwrap_or(0),
